@@ -237,3 +237,18 @@ package txpool
 //@   loop 1 invariant inDom(s.senders, sender) ==> s.senders[sender] == seqHeap
 //@   loop 1 invariant forall k string :: inDom(s.scheduled, k) == old(inDom(s.scheduled, k))
 //@   note the last clause is the property's "always picks the highest-priority ready transaction": a transaction that has become the sender's head must be on the max-heap when no pass is in progress
+
+// ---- reset: restoring the max-heap after a scheduling pass ----
+
+//@ ghost func SenderHeapOK(s *mainQueueScheduler, sh *senderTxHeap, sender string) bool { return sh != nil && ExactSeq(&sh.seqHeap) && Disjoint(s, sh) && (forall t TxT :: InSeq(&sh.seqHeap, t) ==> t != nil && t.meta != nil && TxOK(s, t, sh) && t.seq >= sh.seq) && (forall q uint64 :: inDom(sh.txs, q) ==> sh.txs[q] != nil && InSeq(&sh.seqHeap, sh.txs[q]) && sh.txs[q].seq == q && sh.txs[q].sender == sender) }
+//@ ghost func MinFirst(h *seqNumTxHeap) bool { return forall i int :: 0 <= i && i < len(*h) ==> (*h)[0].seq <= (*h)[i].seq }
+
+//@ func mainQueueScheduler.restoreMaxHeap
+//@   props C20
+//@   requires s != nil && !sameRef(s.scheduled, s.senders)
+//@   requires inDom(s.senders, sender) ==> SenderHeapOK(s, s.senders[sender], sender) && MinFirst(&s.senders[sender].seqHeap)
+//@   requires inDom(s.senders, sender) ==> (forall q uint64 :: inDom(s.senders[sender].txs, q) && Pending(s.senders[sender].txs[q]) ==> seq != 18446744073709551615 && q == seq + 1)
+//@   requires inDom(s.senders, sender) && seq != 18446744073709551615 && inDom(s.senders[sender].txs, seq + 1) ==> Pending(s.senders[sender].txs[seq + 1])
+//@   ensures inDom(s.senders, sender) && inDom(s.senders[sender].txs, s.senders[sender].seq) ==> Pending(s.senders[sender].txs[s.senders[sender].seq])
+//@   ensures inDom(s.senders, sender) ==> (forall q uint64 :: q != s.senders[sender].seq && inDom(s.senders[sender].txs, q) ==> !Pending(s.senders[sender].txs[q]))
+//@   note after reset() the max-heap holds, for every sender touched by the pass, exactly its first pending transaction (sequence number == the sender's current sequence), whatever happened to the sender during the pass
